@@ -8,9 +8,10 @@ git diff -- src > /tmp/seedv_$id.diff
 echo "== $id patch: $(git diff --stat -- src | tail -1)"
 if [[ $demo == *_test.py || $demo == *test_*.py ]]; then run="/venv/bin/python -m pytest -q -p no:cacheprovider $demo"; else run="/venv/bin/python $demo"; fi
 PYTHONPATH=$wt/src timeout 600 $run >/tmp/seedv_$id.with.log 2>&1; with=$?
-git stash -q -- src
+# (git stash is shared between all worktrees of a repository: do not use it here)
+git checkout -q -- src
 PYTHONPATH=$wt/src timeout 600 $run >/tmp/seedv_$id.without.log 2>&1; without=$?
-git stash pop -q
+git apply /tmp/seedv_$id.diff
 echo "demo with change: rc=$with   without: rc=$without"
 PYTHONPATH=$wt/src python3 - <<PY
 import json, subprocess, tempfile, os, xml.etree.ElementTree as ET
